@@ -1,6 +1,6 @@
 (* C11 — type size facts are exact and values report their true byte length.
    Property theorems only. *)
-Require Import RM.Base RM.Types RM.Spec RM.ModelViews RM.FactsProofs RM.SerLen.
+Require Import RM.Base RM.Types RM.Spec RM.ModelViews RM.ModelCodec RM.FactsProofs RM.SerLen RM.SerAll.
 Local Open Scope N_scope.
 
 (* the implementation's class-method facts (is_fixed_byte_length, min/max_byte_length,
@@ -27,7 +27,20 @@ Example C11_nonvacuous :
   min_len t = 11 /\ max_len t = 29.
 Proof. repeat split. Qed.
 
+(* the reported byte length (the count returned by serialize / value_byte_length) of every constructed
+   value equals the length of its actual encoding, which is the spec encoding, lies within the type's
+   bounds, and is the fixed size for fixed-size types *)
+Theorem C11_value_len : forall H src t v, wf_ty t = true -> wf t v = true ->
+  exists n b c, mk H t v = Ok n /\ ser_impl H src t n = Ok (b, c) /\ b = ser t v /\ c = lenN b /\
+    min_impl t <= c <= max_impl t /\ (is_fixed_impl t = true -> c = fsize t).
+Proof.
+  intros H src t v Hty Hwf. destruct (ser_constructed_total H src t v Hty Hwf) as (n & Hn & Hs).
+  exists n, (ser t v), (lenN (ser t v)). split; [exact Hn|]. split; [exact Hs|]. split; [reflexivity|]. split; [reflexivity|].
+  rewrite min_impl_eq, max_impl_eq, is_fixed_impl_eq. split; [now apply ser_len_bounds|]. intros Hf. now apply ser_len_fixed.
+Qed.
+
 Print Assumptions C11_facts.
+Print Assumptions C11_value_len.
 Print Assumptions C11_bounds.
 Print Assumptions C11_fixed_exact.
 Print Assumptions C11_nonvacuous.
